@@ -89,6 +89,11 @@ func (round *round3) Start() *tss.Error {
 				ch <- vssOut{err, nil}
 				return
 			}
+			if len(PjVs) != round.Threshold()+1 {
+				// a commitment that opens, but not to t+1 points; PjVs[0] is used right below
+				ch <- vssOut{errors.New("de-commitment has the wrong number of points"), nil}
+				return
+			}
 			proof, err := r2msg2.UnmarshalZKProof(round.Params().EC())
 			if err != nil {
 				ch <- vssOut{errors.New("failed to unmarshal schnorr proof"), nil}
